@@ -68,7 +68,7 @@ def corpora(seed, tier):
     thorough = tier == "thorough"
     rng = random.Random(seed * 1000003 + (7 if thorough else 3))
     c = {}
-    c["sv"] = g.server_valid(rng, 12000 if thorough else 1500)
+    c["sv"] = g.server_valid(rng, 12000 if thorough else 1500, multi=24 if thorough else 4)
     c["sc"] = g.server_cap_streams(rng)
     c["sh"] = g.server_hostile(rng, quick=not thorough)
     c["sf"] = g.server_floods(rng)
